@@ -24,7 +24,9 @@ PROPS["C09"] = dict(
          "mint amounts at the remaining room and room+-1 and at 2^64 / 2^128 / 2^200 / 2^255 (-1), burns of 2^128 / 2^255, burns of half a unit / one min unit / everything, edits of the maximum at "
          "floor(supply/10^scale) and +-1 and at the initial supply +-1, tax / mint-fee ratio / base fee over {0, default, 1, odd, 2^195-1, 2^195}, fee denom = the native symbol / another registered symbol / a min-unit-only name / an unregistered name; "
          "a quarter of the histories contain a token whose SYMBOL equals another token's MIN UNIT (other owner) with cross-token mints / burns / edits / "
-         "transfers through the shared string; non-trivial = a mint or edit is attempted after a burn, or by a non-owner, or after a transfer of ownership",
+         "transfers through the shared string; a fifth of the histories hand a token with symbol s to a DERIVED 21-23-byte address actor_i++p while a victim owns the symbol p++s "
+         "(the owner-index keys 0x03||owner||symbol of the two pairs are the same bytes) and let actor i try edits / transfers of the victim's token; "
+         "non-trivial = a mint or edit is attempted after a burn, or by a non-owner, or after a transfer of ownership",
     codes={1: "token-supply-exceeds-cap", 2: "token-identity-rebound", 3: "token-non-owner-governs", 4: "token-non-mintable-minted",
            5: "token-burn-tally", 6: "token-fee-split", 7: "token-failed-message-changed-state"},
     explain={1: "the bank supply of a token's min unit exceeds max_supply * 10^scale after the step",
